@@ -21,6 +21,17 @@ def check(run):
     for name, params in plans:
         st = run.explore('[A:B;] S|K <payload> [;C] LF: ' + name, SPEC + (params,), 3000 if thorough else 600)
         records.extend(st['records'])
+    # payloads at argument positions 2 and 3 and two payloads in one unit (device TY)
+    ARG = ('mirsym.checks.run_level', 'PayloadArgCheck')
+    st = run.explore('argument positions: twin (one handler call too many expected)', ARG + ({'entry': 'run', 'maxlen': 1, 'twin': True},), 300)
+    if not any(r.get('violations') for r in st['records']):
+        raise Inconclusive('vacuity twin (argument positions) found nothing')
+    al = 3 if thorough else 2
+    for name, params in (('run, whole message', {'entry': 'run', 'maxlen': al}),
+                         ('process, N = stream length, a cut at every position + byte-at-a-time + all-at-once', {'entry': 'process', 'maxlen': al}),
+                         ('process, N = stream length + 3', {'entry': 'process', 'maxlen': al - 1, 'slack': 3})):
+        st = run.explore('TY: N3 1,ON,<string> | MIX? -5,<block>,OFF | SS <string>,<string> | BB <block>,<block> [;N0] LF [N0 LF]: ' + name, ARG + (params,), 3000 if thorough else 600)
+        records.extend(st['records'])
     viol = {}
     forms = {}
     for r in records:
@@ -34,18 +45,21 @@ def check(run):
             cov['samples'].append(r['sample'])
     cov['vacuity']['leaves_per_payload_form(0=block,1=dq string,2=sq string)'] = forms
     cov['bounds'] = {'payload_bytes': f'0..{ml}, blocks: all 256 values per byte; strings: every byte except the enclosing quote, ASCII plus one leading 2-byte UTF-8 sequence',
-                     'positions': 'payload unit first or after the relative unit A:B; followed by nothing or by the relative unit C', 'schedules': 'every single cut position, one byte per read, whole message per read',
-                     'outside': 'longer payloads, block headers with more than one length digit, several payload arguments in one unit (T1 handlers take one)'}
+                     'positions': 'payload unit first or after the relative unit A:B; followed by nothing or by the relative unit C; on device TY: payload as 2nd of 3 and 3rd of 3 arguments, '
+                                  f'two string / two block payloads of 0..{al} bytes each in one unit', 'schedules': 'every single cut position, one byte per read, whole message per read',
+                     'outside': 'longer payloads, block headers with more than two length digits, more than two payload arguments in one unit, the indefinite block form'}
     run.evidence['assumptions'] = ['string payloads are assumed to be valid UTF-8 (the property quantifies over UTF-8 strings)']
     return {'violations': [dict(v, property='C08') for _, v in sorted(viol.items())], 'exhaustive': True}
 
 
 def confirm(run, v):
     msg = bytes.fromhex(v['input'])
+    devn = v.get('device', 'T1')
+    cap = 64 if devn == 'T1' else 256
     if v['entry'] == 'run':
-        case = {'entry': 'run', 'device': 'T1', 'input': v['input'], 'cap': 64}
+        case = {'entry': 'run', 'device': devn, 'input': v['input'], 'cap': cap}
     else:
-        case = {'entry': 'process', 'device': 'T1', 'input': v['input'], 'n': v['n'], 'chunks': v.get('chunks') or [], 'tail': 1}
+        case = {'entry': 'process', 'device': devn, 'input': v['input'], 'n': v['n'], 'chunks': v.get('chunks') or [], 'tail': 1}
     # reference: the same message with the payload's newlines replaced (same length), given to run whole
     detail = {}
     ok_all = False      # reproduced in the dev or the release profile (both recorded)
@@ -55,7 +69,7 @@ def confirm(run, v):
             ok = obs.get('panic') is not None
         else:
             body = msg[:-1].replace(b'\n', b'.')
-            ref = run.native([{'entry': 'run', 'device': 'T1', 'input': (body + b'\n').hex(), 'cap': 64}], release=rel)[0]
+            ref = run.native([{'entry': 'run', 'device': devn, 'input': (body + b'\n').hex(), 'cap': cap}], release=rel)[0]
             def shape(o):
                 return [(e[0], e[1], [len(a[1]) for a in e[2]]) if e[0] == 'call' else ('err',) for e in o.get('events', [])]
             # payload must arrive verbatim: compare handler ids and, for the payload, the exact bytes
